@@ -335,9 +335,37 @@ def simplify_cond(c: T, assume: dict) -> T:
     return c
 
 
+def _first_or_none(t: T) -> T:
+    """`h = next((x for x in xs if p(x)), None)` ... `None if h is None else f(h)`  is  `f(S[0]) if S else None` with
+    S = [x for x in xs if p(x)]: one form for "the first selected record, if there is one" (records are never None)."""
+    if t.op != "ite":
+        return t
+    c, a, b = t.a
+    pol = True
+    while c.op == "not":
+        c, pol = c.a[0], not pol
+    if not (c.op == "cmp" and c.a[0] in ("is", "is not") and const(None) in (c.a[1], c.a[2])):
+        return t
+    nx = c.a[2] if c.a[1] == const(None) else c.a[1]
+    if not (nx.op == "call" and nx.a[0] == T("builtin", ("next",)) and len(nx.a[1]) == 2 and nx.a[1][1] == const(None)
+            and not nx.a[2]):
+        return t
+    src = nx.a[1][0]
+    while src.op == "call" and src.a[0].op == "builtin" and src.a[0].a[0] in ("iter", "list") and len(src.a[1]) == 1:
+        src = src.a[1][0]
+    if src.op != "comp" or src.a[0] not in ("list", "gen"):
+        return t
+    sel = T("comp", ("list",) + tuple(src.a[1:]))
+    absent_is_then = (c.a[0] == "is") == pol          # the `a` branch is taken when nothing was selected
+    present_v, absent_v = (b, a) if absent_is_then else (a, b)
+    first = T("sub", (sel, const(0)))
+    return T("ite", (sel, sym.subst(present_v, {nx: first}), absent_v))
+
+
 def normalise(rec, t: Optional[T]) -> Optional[T]:
     if t is None:
         return None
+    t = rewrite(t, _first_or_none)
     t = accum_to_comp(rec, t)
     t = consumed_generators(t)
     t = rewrite(t, _list_update)
